@@ -17,7 +17,7 @@ ASSUMPTIONS = [
 ]
 REQUIRED = {
     'quick': ['edge:boundary', 'edge:one', 'edge:two', 'edge:seam', 'edge:finer', 'edge:coarser',
-              'random:glued', 'random:open', 'op:dorfler', 'source:repo-test-suite'],
+              'random:glued', 'random:open', 'op:dorfler', 'source:repo-test-suite', 'deep:seam-last-top', 'deep:seam-first-top', 'deep:interior-top'],
 }
 REQUIRED['thorough'] = REQUIRED['quick']
 TIMEOUT = {'quick': 900, 'thorough': 7200}
